@@ -27,6 +27,10 @@ func (self ValueRange) Display() (string, *VmInterrupt) {
 		return "", i
 	}
 
+	if self.EndIsInclusive {
+		return fmt.Sprintf("%s..=%s", start, end), nil
+	}
+
 	return fmt.Sprintf("%s..%s", start, end), nil
 }
 
